@@ -82,6 +82,10 @@ What is proved (for every `v`, `f`, `n`, every schedule and arrival time unless 
       leaves READING/DONE/FAILED slots alone; a canceled slot without a thread never gets one (no worker
       operation for it ever happens, in any continuation); the dispatcher never creates a thread for a
       CANCELED slot (check and create under one mutex);
+* `canceled_count_printed_is_the_snapshot`
+      "Canceled n pending threads.": n is fixed when threadcount_mutex is taken and nothing else changes it; the LTS and
+      the product with the output stream accept the message printed inside the critical section (dsh.c as pinned) and
+      after the unlock (harmless change C20-H4); the correspondence compares the number when the handler is done;
 * `canceled_created_slot_runs`  **witness of the defect F20-LOSTCANCEL** (decided on a concrete run, N = 1): a
       slot whose thread exists but has not yet written DSH_RCMD is canceled, counted, and then connected: the
       blind `a->state = DSH_RCMD` overwrites DSH_CANCELED.  With the blind worker (`g = false`) "a canceled host
@@ -499,6 +503,35 @@ theorem tstp_cancels_only_pending {v : Variant} {g sw : Bool} {f n t0 : Nat} {b 
       | false => simp [cancelT, hh] at hne
     exact ⟨hp, by simp [cancelT, hp], okTS_pending (hinv.t.ok j) hp⟩
   · rcases hr with hr | hr | hr <;> rw [hr] <;> rfl
+
+/-- C20: the number in "Canceled n pending threads." is the count taken under threadcount_mutex, whenever the message is
+    printed: no step other than the signals thread taking threadcount_mutex for a new cancellation changes `St.ncanc` —
+    so dsh.c as pinned (err() before the unlock) and C20-H4 (err() after the unlock, while the dispatcher and finishing
+    workers already run on) print the same number; in the product with the output stream the signals thread may be
+    inside that stdio call at `cancUnlock` (mutex held) and at `waiting` (mutex released): `emitS` -/
+theorem canceled_count_printed_is_the_snapshot {s s' : St} {l : Label} (hs : step s l = some s')
+    (hl : ¬ (l = .s .lock ∧ s.spc = .cancLock)) : s'.ncanc = s.ncanc := by
+  rcases ncanc_frozen hs with h | h
+  · exact h
+  · exact absurd h hl
+
+/-- non-vacuity, both disciplines of the message in the product model: N = 1, ^C ^Z cancels slot 0 whose worker was
+    created; the record of the message (one stdio call) is written with threadcount_mutex held, or after the unlock
+    while the worker (repaired form) already finds itself canceled — both are runs, same stream, same count -/
+example :
+    (prun (pinit .whileWait true false 1 1 false 10)
+      ([.d .createS, .d .lock, .d (.create 0), .d .unlock,
+        .e (.deliver .int), .s (.sigwait .int), .s (.time 10), .s (.time 10), .s .lockT, .s .unlockT,
+        .e (.deliver .tstp), .s (.sigwait .tstp), .s (.time 10), .s .lock].map .proto ++
+       [.begin ⟨.s, [5]⟩, .copy, .finish, .proto (.s .unlock), .proto (.w 0 .lockT)])).map
+      (fun p => (content p.out, p.p.ncanc, p.p.own)) = some ([5], 1, .none) ∧
+    (prun (pinit .whileWait true false 1 1 false 10)
+      ([.d .createS, .d .lock, .d (.create 0), .d .unlock,
+        .e (.deliver .int), .s (.sigwait .int), .s (.time 10), .s (.time 10), .s .lockT, .s .unlockT,
+        .e (.deliver .tstp), .s (.sigwait .tstp), .s (.time 10), .s .lock].map .proto ++
+       [.proto (.s .unlock), .begin ⟨.s, [5]⟩, .proto (.w 0 .lockT), .copy, .finish])).map
+      (fun p => (content p.out, p.p.ncanc, p.p.own)) = some ([5], 1, .none) := by
+  constructor <;> decide
 
 /-- C20: a canceled slot for which no thread exists never gets one: in every continuation, under every
     schedule, no operation of worker `j` — in particular no connect — ever happens, and the slot stays CANCELED -/
